@@ -44,6 +44,9 @@ type c20Exec struct {
 	// PairShared: two transactions alive at the same time after the scenario
 	// (and a second Close of its transaction) are one object
 	PairShared bool
+	// AuditStarts: number of records begun in the serial audit log / index
+	// lines in the concurrent writer's index for this one transaction
+	AuditStarts int
 }
 
 var c20ErrVars = []string{"REQBODY_ERROR", "REQBODY_PROCESSOR_ERROR", "MULTIPART_STRICT_ERROR", "INBOUND_DATA_ERROR", "OUTBOUND_DATA_ERROR", "URLENCODED_ERROR"}
@@ -87,6 +90,17 @@ func c20Gen(t *verifrt.Tape) (*c20Scenario, *Config) {
 	if sc.Script.BodyKind == "" {
 		sc.Script.Method, sc.Script.BodyKind, sc.Script.ContentType = "POST", "urlencoded", "application/x-www-form-urlencoded"
 		sc.Script.Body = []byte("a=tok1&b=0123456789012345678901234567890123456789")
+	}
+	if t.Draw(5) == 0 {
+		// the engine is switched off (or to DetectionOnly) by a rule after the body
+		// was stored: cleanup and reporting do not depend on the engine mode
+		cfg.Lines = append(cfg.Lines, fmt.Sprintf("SecAction \"id:302,phase:%d,pass,nolog,ctl:ruleEngine=%s\"", []int{2, 2, 3, 5}[t.Draw(4)], pick(t, []string{"Off", "Off", "DetectionOnly"})))
+	}
+	if t.Draw(12) == 0 {
+		// a response body larger than anything a pooled buffer is likely to keep
+		cfg.RespAccess = true
+		sc.Script.RespHeaders = append(sc.Script.RespHeaders, Header{"Content-Type", "text/plain"})
+		sc.Script.RespBody = []byte(strings.Repeat("0123456789abcdef", 4500+t.Draw(2000)))
 	}
 	sc.ReqLimit = cfg.ReqLimit
 	if t.Draw(3) == 0 {
@@ -147,10 +161,27 @@ func c20Execute(w *verifrt.World, sc *c20Scenario, decide func(d *simos.FS, base
 		}
 		ex.Left = append(ex.Left, f)
 	}
+	if b, err := simos.ReadFile(simos.Root + "/audit/audit.log"); err == nil {
+		for _, l := range strings.Split(string(b), "\n") {
+			switch {
+			case sc.Writer == "Serial" && (strings.HasPrefix(l, "{\"transaction\"") || nativeMarkerA.MatchString(l)):
+				ex.AuditStarts++
+			case sc.Writer == "Concurrent" && strings.Contains(l, " - - ["):
+				ex.AuditStarts++
+			}
+		}
+	}
 	ex.Dump = map[string]string{}
 	for _, d := range ex.Out.Data[9991] {
 		k, v, _ := strings.Cut(d, ":=")
 		ex.Dump[k] = v
+	}
+	for k, v := range ex.Out.ErrVars {
+		// read directly as well: the dumping rule does not run once a rule has
+		// switched the engine off
+		if _, ok := ex.Dump[k]; !ok {
+			ex.Dump[k] = v
+		}
 	}
 	if withProbe {
 		ex.Probe = runTx(h, sc.Probe)
@@ -166,6 +197,8 @@ func c20Execute(w *verifrt.World, sc *c20Scenario, decide func(d *simos.FS, base
 	}
 	return ex
 }
+
+var nativeMarkerA = regexp.MustCompile(`^--[A-Za-z0-9]{4,}-A--$`)
 
 func c20FaultKinds(opKind string) []string {
 	switch opKind {
@@ -284,6 +317,12 @@ func c20Run(w *verifrt.World, tier Tier) *RunResult {
 			res.fail("C20", "over-limit-swallowed", fmt.Sprintf("reader%d", sc.Script.BodyReader), "a request body of %d bytes with SecRequestBodyLimit %d (slices %v) was processed without interruption, INBOUND_DATA_ERROR, returned error or log entry: calls %v\nconfiguration:\n%s", len(sc.Script.Body), sc.ReqLimit, sc.Script.BodyChunks, base.Out.Steps, sc.Config)
 		}
 	}
+	if base.AuditStarts > 1 {
+		res.fail("C20", "audit-record-repeated", "fault-free", "fault-free run: the audit log holds %d records (or index lines) for the one transaction\nconfiguration:\n%s", base.AuditStarts, sc.Config)
+	}
+	if base.AuditStarts == 1 {
+		res.count("audit_records_counted", 1)
+	}
 	checkLeft(base, "fault-free run", "fault-free")
 	checkProbe(base, "fault-free run", "fault-free")
 	txOps := base.Ops[base.TxOpBase:]
@@ -357,6 +396,9 @@ func c20Run(w *verifrt.World, tier Tier) *RunResult {
 			}
 			checkLeft(ex, what, k)
 			checkProbe(ex, what, k)
+			if ex.AuditStarts > 1 {
+				res.fail("C20", "audit-record-repeated", fp, "%s: the audit log holds %d records (or index lines) for the one transaction; a failed write is reported, not repeated\nconfiguration:\n%s", what, ex.AuditStarts, sc.Config)
+			}
 		}
 	}
 	res.count("fault_points", int64(points))
